@@ -255,7 +255,7 @@ add("C24", "exploration", ["agdb_server", "srvh"], http_steps("c24", ["--n", "6"
     "every relation to the target (owner, admin / write / read role, stranger, server admin, no token, garbage token, logged-out token, token of a "
     "deleted user) cover the database and role endpoints; a model of the documented permission table decides 'permitted'; requests that are not "
     "permitted must be rejected and leave the admin-API state probe unchanged; role changes and logouts that returned 2xx must be effective at once.",
-    "Sequential requests on one node; token expiry by time is exercised only through logout / user deletion (the minimum expiry is 60 s).",
+    "Sequential requests on one node; expiry of tokens by time is exercised in the thorough tier only (one case with the minimum expiry of 60 s); the quick tier covers logout and user deletion.",
     "DESIGN.md §6 C24", replay_bin=SRVH, engine="srvh")
 
 add("C25", "exploration", ["agdb_server", "srvh"], http_steps("c25", ["--n", "6", "--batches", "150"], ["--n", "32", "--batches", "600"]),
